@@ -1157,20 +1157,29 @@ class FuncFlow:
             return set()
         out: T.Set[str] = set()
         peers = self.an.__dict__.setdefault('_peers', {})
+        rcache = self.an.__dict__.setdefault('_acc', {})
         for m, c in self._param_classes(f.value.id):
-            found = None
-            for m2, c2 in self.an.repo.mro(m, c):
-                st = next((x for x in c2.body if isinstance(x, (ast.FunctionDef, ast.AsyncFunctionDef)) and x.name == f.attr), None)
-                if st is not None:
-                    found = (m2, c2, st)
-                    break
+            rk = (m.rel, id(c), f.attr)
+            if rk not in rcache:
+                found = None
+                for m2, c2 in self.an.repo.mro(m, c):
+                    st = next((x for x in c2.body if isinstance(x, (ast.FunctionDef, ast.AsyncFunctionDef)) and x.name == f.attr), None)
+                    if st is not None:
+                        found = (m2, c2, st)
+                        break
+                if found is not None:
+                    m2, c2, fn = found
+                    if not is_method(fn) or any(d.rsplit('.', 1)[-1] in ('staticmethod', 'classmethod', 'property') for d in decorator_names(fn)):
+                        found = None
+                    elif sum(1 for k in m2.classes().values() for x in k.body
+                             if isinstance(x, (ast.FunctionDef, ast.AsyncFunctionDef)) and x.name == f.attr) != 1:
+                        found = None        # another class of the module defines it too: the receiver may be an overriding subclass
+                rcache[rk] = found
+            found = rcache[rk]
             if found is None:
                 continue
             m2, c2, fn = found
-            if not is_method(fn) or any(d.rsplit('.', 1)[-1] in ('staticmethod', 'classmethod', 'property') for d in decorator_names(fn)):
-                continue
-            ndef = sum(1 for k in m2.classes().values() for x in k.body if isinstance(x, (ast.FunctionDef, ast.AsyncFunctionDef)) and x.name == f.attr)
-            if ndef != 1 or fn is self.fn or id(fn) in self.an.stack:
+            if fn is self.fn or id(fn) in self.an.stack:
                 continue
             key = (m2.rel, c2.name)
             peer = peers.get(key)
